@@ -17,7 +17,7 @@ R10.7 `contains(t, x)` is slice membership of x in t; `contains_any(t, (y1, y2))
 Not decided: any numeric result (libm), shift values outside 0..63, min/max with NaN."""
 import re
 import tables
-from absint import Interp, SYM, C, ADT, OK, ERR, SOME, NONE, UNK, Fork, fmt, is_adt, Budget
+from absint import Interp, SYM, C, ADT, OK, ERR, SOME, NONE, UNK, Fork, fmt, is_adt, Budget, P_OK, P_ERR, P_SOME
 from mirlib import short, path_endswith
 from rules.common import load_docs
 from rules.treepaths import branches_of
@@ -372,15 +372,19 @@ def r104(ctx, prog, B):
         ps = B.call('math::abs', B.V('Int', 'x'))
         rets = sorted(fmt(p[0]) for p in (ps or []))
         core = ('app', IT + 'abs', (SYM('x'),))
-        good = ps is not None and len(ps) == 2 and OK(ADT(B.val['path'], 2, 'Int', [('proj', core, ('ok',))])) in [p[0] for p in ps] and ERR(('proj', core, ('err',))) in [p[0] for p in ps]
+        good = ps is not None and len(ps) == 2 and OK(ADT(B.val['path'], 2, 'Int', [P_OK(core)])) in [p[0] for p in ps] and ERR(P_ERR(core)) in [p[0] for p in ps]
         ctx.check(good, 'R10.4', 'math::abs[Int]', 'abs-int', 'math::abs of an integer is an Int, and the error of EvalexprInt::abs (overflow) is returned (found %s)' % rets)
         a = [f for f in prog.fns if f.name == 'abs' and path_endswith(f.j.get('impl_trait') or '', 'EvalexprInt') and f.j.get('impl_self_ty') == 'i64']
         if len(a) == 1:
             ps = Interp(prog).paths(a[0], [SYM('self')])
-            # negative -> checked_neg (error on MIN), non-negative -> Ok(self); no raw abs
-            calls = {e[0] for p in ps for e in p[1] if not e[0].startswith('<')}
-            okk = any(p[0] == OK(SYM('self')) for p in ps) and any('checked_neg' in fmt(p[0]) or any('checked_neg' in e[0] for e in p[1]) for p in ps) and not any(c.endswith('i64>::abs') for c in calls)
-            ctx.check(okk, 'R10.4', '<i64 as EvalexprInt>::abs', 'abs-checked', 'integer abs negates through checked_neg (overflow -> error) and never calls the panicking i64::abs (calls %s)' % sorted(calls), span=a[0].span)
+            # accepted idioms: (a) negative -> checked_neg (error on MIN), non-negative -> Ok(self); (b) i64::checked_abs mapped to the
+            # negation error on None. Never the panicking / wrapping / saturating forms.
+            calls = {e[0] for p in ps for e in p[1] if not e[0].startswith('<')} | {n for p in ps for n, _ in apps(p[0])}
+            bad = sorted(c for c in calls if re.search(r'(^|::|>::)(abs|wrapping_abs|saturating_abs|overflowing_abs|unsigned_abs|wrapping_neg|saturating_neg|overflowing_neg|neg)$', c) and 'EvalexprInt' not in c)
+            via_neg = any('checked_neg' in c for c in calls) and any(p[0] == OK(SYM('self')) for p in ps)
+            via_abs = any(c.endswith('i64>::checked_abs') for c in calls)
+            okk = (via_neg or via_abs) and not bad
+            ctx.check(okk, 'R10.4', '<i64 as EvalexprInt>::abs', 'abs-checked', 'integer abs goes through checked_neg (negative) / Ok(self), or through i64::checked_abs, so overflow is an error; never the panicking, wrapping or saturating forms (calls %s)' % sorted(calls), span=a[0].span)
     # if: returns the selected argument
     if 'if' in B.closures:
         ps = B.call('if', B.tuple([B.V('Boolean', 'c'), B.V('Int', 'then'), B.V('String', 'else')]))
